@@ -412,6 +412,13 @@ func (p *Parser) hook(r rune) {
 			continue
 		}
 		val, err := strconv.Atoi(param)
+		if ne, ok := err.(*strconv.NumError); ok && ne.Err == strconv.ErrRange {
+			// saturate, as CSI parameters do
+			val, err = maxParam, nil
+		}
+		if val > maxParam {
+			val = maxParam
+		}
 		if err != nil {
 			p.emit(fmt.Errorf("hook: %w", err))
 			return
